@@ -35,8 +35,8 @@ def unmodelled_library_uses(prog, quals):
             if dotted and dotted.startswith(UNMODELLED_LIBS) and dotted not in MODELLED and dotted.rstrip('.') not in (
                     'functools', 'operator', 'itertools', 'contextlib', 'collections'):
                 out.add(dotted)
-            if dotted in ('dataclasses.field', 'dataclasses.replace', 'dataclasses.asdict', 'dataclasses.astuple'):
-                out.add(dotted)
+            if dotted in ('dataclasses.field', 'dataclasses.replace', 'dataclasses.asdict', 'dataclasses.astuple', 'struct.error'):
+                out.add(dotted)         # (struct.error: when struct.pack refuses a value is not part of the struct summaries)
             # record helpers and class machinery the evaluator does not model
             if isinstance(n, ast.Attribute) and n.attr in ('_replace', '_asdict', '_make', '_fields', '__dict__', '__subclasses__'):
                 out.add('.%s' % n.attr)
